@@ -281,7 +281,7 @@ class HybridClass(metaclass=MetaHybridClass):
                 dressed_kwargs[kk] = vv
                 xo_kwargs[self._inverse_rename.get(kk, kk)] = vv._xobject
             else:
-                xo_kwargs[self._inverse_rename.get(kk, kk)] = vv
+                xo_kwargs.update(self._to_xo_names({kk: vv}))
 
         self._xobject = self._XoStruct(**xo_kwargs)
 
@@ -292,6 +292,19 @@ class HybridClass(metaclass=MetaHybridClass):
         # dress what can be dressed
         # (for example in case object is initialized from dict)
         self._reinit_from_xobject(_xobject=self._xobject)
+
+    @classmethod
+    def _to_xo_names(cls, dct):
+        """Translate the keys of `dct` from python names to xobject field
+        names, also inside the dictionaries given for nested hybrid fields."""
+        out = {}
+        for kk, vv in dct.items():
+            xo_name = cls._inverse_rename.get(kk, kk)
+            ftype = getattr(getattr(cls._XoStruct, xo_name, None), "ftype", None)
+            if isinstance(vv, dict) and hasattr(ftype, "_DressingClass"):
+                vv = ftype._DressingClass._to_xo_names(vv)
+            out[xo_name] = vv
+        return out
 
     def __init__(self, _xobject=None, **kwargs):
         self.xoinitialize(_xobject=_xobject, **kwargs)
